@@ -147,9 +147,14 @@ type checker struct {
 	c    *taxCase
 	t    *ref.Tree
 	tax  *obitax.Taxonomy
-	step string // what is being called (reported when the call dies)
+	stepFmt  string // what is being called (formatted only when the call dies)
+	stepArgs []any
 	used map[string]bool
 }
+
+func (k *checker) at(format string, args ...any) { k.stepFmt, k.stepArgs = format, args }
+
+func (k *checker) step() string { return fmt.Sprintf(k.stepFmt, k.stepArgs...) }
 
 func mkseq(taxid int) *obiseq.BioSequence {
 	s := obiseq.NewBioSequence("q", []byte("acgt"), "")
@@ -161,7 +166,7 @@ func mkseq(taxid int) *obiseq.BioSequence {
 func (k *checker) resolve(id int) (*obitax.TaxNode, int, bool, error) {
 	t := k.t
 	n, via, ok := t.Resolve(id)
-	k.step = fmt.Sprintf("Taxonomy.Taxon(%d)", id)
+	k.at("Taxonomy.Taxon(%d)", id)
 	node, err := k.tax.Taxon(id)
 	if ok != (err == nil) {
 		if ok {
@@ -179,12 +184,12 @@ func (k *checker) resolve(id int) (*obitax.TaxNode, int, bool, error) {
 		return nil, 0, false, fmt.Errorf("Taxonomy.Taxon(%d) = (taxid %d, rank %q, name %q); the tree has (taxid %d, rank %q, name %q)%s",
 			id, node.Taxid(), node.Rank(), node.ScientificName(), t.Taxid[n], t.Rank[n], t.Name[n], map[bool]string{true: " reached through merged id", false: ""}[via])
 	}
-	k.step = fmt.Sprintf("Taxon(%d).Parent()", id)
+	k.at("Taxon(%d).Parent()", id)
 	if p := node.Parent(); p == nil || p.Taxid() != t.Taxid[t.Parent[n]] {
 		return nil, 0, false, fmt.Errorf("Taxon(%d).Parent() = %v, the tree says taxid %d", id, taxidOf(p), t.Taxid[t.Parent[n]])
 	}
 	// the same id given as a decimal string (what IsSubCladeOfSlot passes)
-	k.step = fmt.Sprintf("Taxonomy.Taxon(%q)", strconv.Itoa(id))
+	k.at("Taxonomy.Taxon(%q)", strconv.Itoa(id))
 	if s, err := k.tax.Taxon(strconv.Itoa(id)); err != nil || s != node {
 		return nil, 0, false, fmt.Errorf("Taxonomy.Taxon(%q) = (%v, %v) differs from Taxonomy.Taxon(%d) = taxid %d", strconv.Itoa(id), taxidOf(s), err, id, node.Taxid())
 	}
@@ -200,7 +205,7 @@ func taxidOf(n *obitax.TaxNode) string {
 
 func (k *checker) path(id int, node *obitax.TaxNode, n int, ok bool) error {
 	t := k.t
-	k.step = fmt.Sprintf("Taxonomy.Path(%d)", id)
+	k.at("Taxonomy.Path(%d)", id)
 	p2, err2 := k.tax.Path(id)
 	if !ok {
 		if err2 == nil {
@@ -208,7 +213,7 @@ func (k *checker) path(id int, node *obitax.TaxNode, n int, ok bool) error {
 		}
 		return nil
 	}
-	k.step = fmt.Sprintf("Taxon(%d).Path()", id)
+	k.at("Taxon(%d).Path()", id)
 	p1, err1 := node.Path()
 	if err1 != nil || err2 != nil || p1 == nil || p2 == nil {
 		return fmt.Errorf("Path of %d: TaxNode.Path err=%v, Taxonomy.Path err=%v on a reindexed taxonomy", id, err1, err2)
@@ -250,25 +255,25 @@ func (k *checker) rankChecks(id int, node *obitax.TaxNode, n int, ok bool, rank 
 	want := -1
 	if ok {
 		want = t.AtRank(n, rank)
-		k.step = fmt.Sprintf("Taxon(%d).TaxonAtRank(%q)", id, rank)
+		k.at("Taxon(%d).TaxonAtRank(%q)", id, rank)
 		got := node.TaxonAtRank(rank)
 		if (got == nil) != (want < 0) || (got != nil && got.Taxid() != t.Taxid[want]) {
 			return fmt.Errorf("Taxon(%d).TaxonAtRank(%q) = %s; first ancestor-or-self with that rank in the tree: %s", id, rank, taxidOf(got), k.nodeStr(want))
 		}
-		k.step = fmt.Sprintf("Taxon(%d).HasRankDefined(%q)", id, rank)
+		k.at("Taxon(%d).HasRankDefined(%q)", id, rank)
 		if h := node.HasRankDefined(rank); h != (want >= 0) {
 			return fmt.Errorf("Taxon(%d).HasRankDefined(%q) = %v; first ancestor-or-self with that rank in the tree: %s", id, rank, h, k.nodeStr(want))
 		}
 	}
 	// sequence level
 	if k.used[rank] {
-		k.step = fmt.Sprintf("Taxonomy.HasRequiredRank(%q)(sequence with taxid %d)", rank, id)
+		k.at("Taxonomy.HasRequiredRank(%q)(sequence with taxid %d)", rank, id)
 		if sel := k.tax.HasRequiredRank(rank)(mkseq(id)); sel != (want >= 0) {
 			return fmt.Errorf("Taxonomy.HasRequiredRank(%q) on a sequence with taxid %d = %v; the tree says %v (taxid known: %v, taxon at that rank: %s)", rank, id, sel, want >= 0, ok, k.nodeStr(want))
 		}
 	}
 	s := mkseq(id)
-	k.step = fmt.Sprintf("Taxonomy.SetTaxonAtRank(sequence with taxid %d, %q)", id, rank)
+	k.at("Taxonomy.SetTaxonAtRank(sequence with taxid %d, %q)", id, rank)
 	got := k.tax.SetTaxonAtRank(s, rank)
 	vt, okt := s.GetAttribute(rank + "_taxid")
 	vn, okn := s.GetAttribute(rank + "_name")
@@ -304,9 +309,9 @@ func (k *checker) pairChecks(a, b int, na *obitax.TaxNode, ia int, oka bool, nb 
 	t := k.t
 	if oka && okb {
 		want := t.LCA(ia, ib)
-		k.step = fmt.Sprintf("Taxon(%d).LCA(Taxon(%d))", a, b)
+		k.at("Taxon(%d).LCA(Taxon(%d))", a, b)
 		l1, e1 := na.LCA(nb)
-		k.step = fmt.Sprintf("Taxon(%d).LCA(Taxon(%d))", b, a)
+		k.at("Taxon(%d).LCA(Taxon(%d))", b, a)
 		l2, e2 := nb.LCA(na)
 		if e1 != nil || e2 != nil || l1 == nil || l2 == nil {
 			return fmt.Errorf("LCA(%d,%d): errors %v / %v, results %s / %s on a reindexed taxonomy", a, b, e1, e2, taxidOf(l1), taxidOf(l2))
@@ -317,15 +322,15 @@ func (k *checker) pairChecks(a, b int, na *obitax.TaxNode, ia int, oka bool, nb 
 		if l2 != l1 {
 			return fmt.Errorf("LCA not commutative: Taxon(%d).LCA(Taxon(%d)) = taxid %d but Taxon(%d).LCA(Taxon(%d)) = taxid %d", a, b, l1.Taxid(), b, a, l2.Taxid())
 		}
-		k.step = fmt.Sprintf("Taxon(%d).LCA(itself)", a)
+		k.at("Taxon(%d).LCA(itself)", a)
 		if s, e := na.LCA(na); e != nil || s != na {
 			return fmt.Errorf("LCA not idempotent: Taxon(%d).LCA(Taxon(%d)) = %s, %v", a, a, taxidOf(s), e)
 		}
-		k.step = fmt.Sprintf("Taxon(%d).IsSubCladeOf(Taxon(%d))", a, b)
+		k.at("Taxon(%d).IsSubCladeOf(Taxon(%d))", a, b)
 		if got, w := na.IsSubCladeOf(nb), t.IsAncestorOrSelf(ib, ia); got != w {
 			return fmt.Errorf("Taxon(%d).IsSubCladeOf(Taxon(%d)) = %v; in the tree %d %s an ancestor-or-self of %d", a, b, got, t.Taxid[ib], map[bool]string{true: "is", false: "is not"}[w], t.Taxid[ia])
 		}
-		k.step = fmt.Sprintf("Taxon(%d).IsSubCladeOf(Taxon(%d))", b, a)
+		k.at("Taxon(%d).IsSubCladeOf(Taxon(%d))", b, a)
 		if got, w := nb.IsSubCladeOf(na), t.IsAncestorOrSelf(ia, ib); got != w {
 			return fmt.Errorf("Taxon(%d).IsSubCladeOf(Taxon(%d)) = %v; in the tree %d %s an ancestor-or-self of %d", b, a, got, t.Taxid[ia], map[bool]string{true: "is", false: "is not"}[w], t.Taxid[ib])
 		}
@@ -341,7 +346,7 @@ func (k *checker) pairChecks(a, b int, na *obitax.TaxNode, ia int, oka bool, nb 
 				clades = append(clades, n)
 			}
 		}
-		k.step = fmt.Sprintf("Taxon(%d).IsBelongingSubclades(%v)", a, set)
+		k.at("Taxon(%d).IsBelongingSubclades(%v)", a, set)
 		if got, w := na.IsBelongingSubclades(&ts), t.InAnyClade(ia, clades); got != w {
 			return fmt.Errorf("Taxon(%d).IsBelongingSubclades(set of taxids %v) = %v; the tree says %v", a, set, got, w)
 		}
@@ -349,7 +354,7 @@ func (k *checker) pairChecks(a, b int, na *obitax.TaxNode, ia int, oka bool, nb 
 	// sequence predicates: a sequence annotated with taxid a, clade given by b
 	want := oka && okb && t.IsAncestorOrSelf(ib, ia)
 	if okb {
-		k.step = fmt.Sprintf("Taxonomy.IsSubCladeOf(%d)(sequence with taxid %d)", b, a)
+		k.at("Taxonomy.IsSubCladeOf(%d)(sequence with taxid %d)", b, a)
 		if sel := k.tax.IsSubCladeOf(b)(mkseq(a)); sel != want {
 			return fmt.Errorf("Taxonomy.IsSubCladeOf(%d) on a sequence with taxid %d = %v; the tree says %v (sequence taxid known: %v)", b, a, sel, want, oka)
 		}
@@ -360,16 +365,16 @@ func (k *checker) pairChecks(a, b int, na *obitax.TaxNode, ia int, oka bool, nb 
 		refv = strconv.Itoa(b)
 	}
 	s.SetAttribute("ref_taxon", refv)
-	k.step = fmt.Sprintf("Taxonomy.IsSubCladeOfSlot(\"ref_taxon\")(sequence with taxid %d, ref_taxon=%#v)", a, refv)
+	k.at("Taxonomy.IsSubCladeOfSlot(\"ref_taxon\")(sequence with taxid %d, ref_taxon=%#v)", a, refv)
 	if sel := k.tax.IsSubCladeOfSlot("ref_taxon")(s); sel != want {
 		return fmt.Errorf("Taxonomy.IsSubCladeOfSlot(\"ref_taxon\") on a sequence with taxid %d and ref_taxon=%#v = %v; the tree says %v (known: sequence taxid %v, slot taxid %v)", a, refv, sel, want, oka, okb)
 	}
-	k.step = "Taxonomy.IsSubCladeOfSlot on a sequence without the slot"
+	k.at("Taxonomy.IsSubCladeOfSlot on a sequence without the slot")
 	if k.tax.IsSubCladeOfSlot("other_slot")(s) {
 		return fmt.Errorf("Taxonomy.IsSubCladeOfSlot(\"other_slot\") selects a sequence (taxid %d) that has no such slot", a)
 	}
 	// IsAValidTaxon, with and without correction of merged ids
-	k.step = fmt.Sprintf("Taxonomy.IsAValidTaxon()(sequence with taxid %d)", a)
+	k.at("Taxonomy.IsAValidTaxon()(sequence with taxid %d)", a)
 	s = mkseq(a)
 	if v := k.tax.IsAValidTaxon()(s); v != oka {
 		return fmt.Errorf("Taxonomy.IsAValidTaxon() on a sequence with taxid %d = %v; the tree knows the id (as taxid or merged id): %v", a, v, oka)
@@ -377,7 +382,7 @@ func (k *checker) pairChecks(a, b int, na *obitax.TaxNode, ia int, oka bool, nb 
 	if tid, _ := s.GetAttribute("taxid"); tid != any(a) {
 		return fmt.Errorf("Taxonomy.IsAValidTaxon() without correction changed the taxid of the sequence from %d to %v", a, tid)
 	}
-	k.step = fmt.Sprintf("Taxonomy.IsAValidTaxon(true)(sequence with taxid %d)", a)
+	k.at("Taxonomy.IsAValidTaxon(true)(sequence with taxid %d)", a)
 	s = mkseq(a)
 	v := k.tax.IsAValidTaxon(true)(s)
 	wantID := a
@@ -395,13 +400,13 @@ func (k *checker) tripleChecks(ids [3]int, nodes [3]*obitax.TaxNode, idx [3]int,
 	t := k.t
 	a, b, c := ids[0], ids[1], ids[2]
 	want := t.LCAOfSet(idx[:])
-	k.step = fmt.Sprintf("LCA(LCA(%d,%d),%d)", a, b, c)
+	k.at("LCA(LCA(%d,%d),%d)", a, b, c)
 	ab, e1 := nodes[0].LCA(nodes[1])
 	if e1 != nil {
 		return fmt.Errorf("Taxon(%d).LCA(Taxon(%d)): %v", a, b, e1)
 	}
 	abc, e2 := ab.LCA(nodes[2])
-	k.step = fmt.Sprintf("LCA(%d,LCA(%d,%d))", a, b, c)
+	k.at("LCA(%d,LCA(%d,%d))", a, b, c)
 	bc, e3 := nodes[1].LCA(nodes[2])
 	if e2 != nil || e3 != nil {
 		return fmt.Errorf("LCA over (%d,%d,%d): errors %v %v", a, b, c, e2, e3)
@@ -429,7 +434,7 @@ func (k *checker) tripleChecks(ids [3]int, nodes [3]*obitax.TaxNode, idx [3]int,
 	}
 	s := mkseq(a)
 	s.SetAttribute("merged_taxid", merged)
-	k.step = fmt.Sprintf("Taxonomy.LCA(sequence with merged_taxid %v, 1.0)", merged)
+	k.at("Taxonomy.LCA(sequence with merged_taxid %v, 1.0)", merged)
 	l, rans, _ := k.tax.LCA(s, 1.0)
 	if l == nil || l.Taxid() != t.Taxid[want] {
 		return fmt.Errorf("Taxonomy.LCA(sequence with merged_taxid %v, threshold 1.0) = %s; deepest common ancestor-or-self in the tree: %s", merged, taxidOf(l), k.nodeStr(want))
@@ -439,7 +444,7 @@ func (k *checker) tripleChecks(ids [3]int, nodes [3]*obitax.TaxNode, idx [3]int,
 	}
 	s = mkseq(a)
 	s.SetAttribute("merged_taxid", merged)
-	k.step = fmt.Sprintf("AddLCAWorker(\"best\", 1.0)(sequence with merged_taxid %v)", merged)
+	k.at("AddLCAWorker(\"best\", 1.0)(sequence with merged_taxid %v)", merged)
 	if _, err := obitax.AddLCAWorker(k.tax, "best", 1.0)(s); err != nil {
 		return fmt.Errorf("AddLCAWorker on merged_taxid %v: %v", merged, err)
 	}
@@ -451,7 +456,7 @@ func (k *checker) tripleChecks(ids [3]int, nodes [3]*obitax.TaxNode, idx [3]int,
 	}
 	// a sequence that only has its own taxid: the LCA is that taxon
 	s = mkseq(a)
-	k.step = fmt.Sprintf("Taxonomy.LCA(sequence with taxid %d only, 1.0)", a)
+	k.at("Taxonomy.LCA(sequence with taxid %d only, 1.0)", a)
 	if l, _, _ := k.tax.LCA(s, 1.0); l == nil || l.Taxid() != t.Taxid[idx[0]] {
 		return fmt.Errorf("Taxonomy.LCA(sequence with taxid %d and no merged_taxid, 1.0) = %s; expected the taxon itself (taxid %d)", a, taxidOf(l), t.Taxid[idx[0]])
 	}
@@ -602,12 +607,12 @@ func runTax(c *taxCase, count bool) error {
 			ferr = fmt.Errorf("harness: unknown mode %q", c.Mode)
 		}
 		if ferr == nil {
-			k.step = "filters built on unknown arguments"
+			k.at("filters built on unknown arguments")
 			ferr = k.unknownArguments()
 		}
 	})
 	if !out.Completed {
-		return fmt.Errorf("%s did not return on a taxonomy of %d nodes built by %s: %v\n%s", k.step, t.N(), c.Build, out, out.Stack)
+		return fmt.Errorf("%s did not return on a taxonomy of %d nodes built by %s: %v\n%s", k.step(), t.N(), c.Build, out, out.Stack)
 	}
 	return ferr
 }
